@@ -103,7 +103,7 @@ def _check_type(value: Any, type_: Any, err: str, type_vars: Dict[TypeVar_, Any]
     """
 
     if type_ is None:
-        return value == type_
+        return value is None
     elif isinstance(type_, str):
         return any(class_.__name__ == type_ for class_ in type(value).__mro__)
 
